@@ -251,6 +251,9 @@ func (d *c20drv) run(c *verifsim.Chooser, st *Stats, render bool) *Outcome {
 				doc, docFault = "{\"Name\":\"\xff\xfe\"}", "invalid UTF-8"
 			case 8:
 				doc, docFault = `{"Age":1e999,"Score":-1e999}`, "number out of range"
+			case 9:
+				doc = doc + []string{" trailing", "{\"Age\":0}", "]", "\n{}", " ,", "\x00"}[c.Intn(6)]
+				docFault = "garbage after the document"
 			}
 		}
 		switch c.Intn(12) {
@@ -339,7 +342,11 @@ func (d *c20drv) run(c *verifsim.Chooser, st *Stats, render bool) *Outcome {
 		return o
 	}
 	if hc, _ := res.stat["hitcap"].(bool); hc {
-		o.violate("C20/driver", sig+" not-stopped", "the script was still running after 400000 polls although -timeout %s was given", timeout)
+		o.violate("C20/driver", sig+" not-stopped", "the script was still running after 400000 ticks although -timeout %s was given", timeout)
+		return o
+	}
+	if ra, _ := res.stat["runaway"].(bool); ra {
+		o.violate("C20/driver", sig+" not-stopped", "the script kept running for more than 65536 instructions after the -timeout %s deadline had passed on the simulated clock", timeout)
 		return o
 	}
 	if sub != "run" {
@@ -358,11 +365,10 @@ func (d *c20drv) run(c *verifsim.Chooser, st *Stats, render bool) *Outcome {
 		if docFault == "enoent" || docFault == "eisdir" || docFault == "eio" {
 			docOK = false
 		} else if err := json.Unmarshal([]byte(doc), &obj); err != nil {
+			// (the wording of the decoding error is the driver's own
+			// business: only "no result is reported" is required, below)
 			docOK = false
 			st.probe("json-rejected")
-			if !strings.Contains(res.stdout, err.Error()) {
-				o.violate("C20/driver", sig+" json-error-not-reported", "the document does not decode (%v) but stdout does not say so: %s", err, clip(res.stdout, 300))
-			}
 		} else {
 			st.probe("json-accepted")
 		}
